@@ -788,6 +788,7 @@ pub fn check_race(case: &Case, out: &mut CaseOut) {
 
 pub fn property() -> Property {
     Property {
+        fuzz: vec![],
         id: "C12",
         rule: "three sub-checks around one incoming INVITE handled by Dialog::new_server + Acceptor under a paused clock. accept_retransmit (enumerated): accept at 0/30 ms x ACK arrival on the grid {+-1 ms around every T1-doubling-capped-at-T2 instant, 64*T1 +-1, never} x ACK CSeq matching / not. reliable_provisional (enumerated): PRACK arrival +-1 ms around every RFC 3262 instant x RAck matching / wrong rseq / wrong cseq. races (random): 1..3 application ops {180, accept, reject, drop} and 1..4 network ops {CANCEL matching / wrong branch / wrong CSeq, BYE, duplicate INVITE, ACK} at instants from {5,6,7,505,506,1505,4000} ms (same instant in both orders), tokio select seed. Non-trivial (races) = a network op and an application op within 1 ms, or two decisive events at one instant.",
         assumptions: vec![
